@@ -12,6 +12,7 @@ import (
 	"time"
 
 	"go.sia.tech/core/consensus"
+	rhp2 "go.sia.tech/core/rhp/v2"
 	rhp4 "go.sia.tech/core/rhp/v4"
 	"go.sia.tech/core/types"
 	"lukechampine.com/frand"
@@ -599,6 +600,17 @@ func RPCVerifySector(ctx context.Context, t TransportClient, prices rhp4.HostPri
 	}, nil
 }
 
+// freeSectorsProofSize returns the number of hashes (subtree plus leaf hashes)
+// of a free sectors proof for the given normalized (descending, unique) indices.
+func freeSectorsProofSize(indices []uint64, numSectors uint64) uint64 {
+	actions := make([]rhp2.RPCWriteAction, 0, len(indices)+1)
+	for i, n := range indices {
+		actions = append(actions, rhp2.RPCWriteAction{Type: rhp2.RPCWriteActionSwap, A: n, B: numSectors - uint64(i) - 1})
+	}
+	actions = append(actions, rhp2.RPCWriteAction{Type: rhp2.RPCWriteActionTrim, A: uint64(len(indices))})
+	return rhp2.DiffProofSize(actions, numSectors)
+}
+
 // RPCFreeSectors removes sectors from a contract.
 func RPCFreeSectors(ctx context.Context, t TransportClient, signer ContractSigner, cs consensus.State, prices rhp4.HostPrices, contract ContractRevision, indices []uint64) (RPCFreeSectorsResult, error) {
 	// sort indices descending and remove duplicates to avoid swapping a
@@ -638,6 +650,11 @@ func RPCFreeSectors(ctx context.Context, t TransportClient, signer ContractSigne
 		// the contract; an answer to such a request must not reach the proof
 		// verifier, which indexes the host-supplied hashes by it
 		return RPCFreeSectorsResult{}, clientErrf("sector index %d exceeds contract sectors %d", indices[0], numSectors)
+	} else if uint64(len(resp.OldSubtreeHashes)+len(resp.OldLeafHashes)) != freeSectorsProofSize(indices, numSectors) {
+		// the diff proof verifier does not check the number of hashes: a proof
+		// that is too short reproduces the old root for a tree of another shape,
+		// with an inner node passed off as a sector root
+		return RPCFreeSectorsResult{}, clientErr("free sectors proof has the wrong size", ErrInvalidProof)
 	} else if !rhp4.VerifyFreeSectorsProof(resp.OldSubtreeHashes, resp.OldLeafHashes, indices, numSectors, contract.Revision.FileMerkleRoot, resp.NewMerkleRoot) {
 		return RPCFreeSectorsResult{}, clientErr("failed to verify free sectors proof", ErrInvalidProof)
 	}
